@@ -477,6 +477,12 @@ func (h *hist) deliver(p *pdkg.GossipPacket, to []int, what string, from int) {
 		if p == nil || h.cut {
 			return
 		}
+		if h.kyber && p.GetExecute() != nil {
+			// real executions are about to start in the background: nothing else is interleaved
+			// until runKyber has recorded their outcomes
+			h.packet(i, p, what, h.role(i, from))
+			continue
+		}
 		r := h.rng.Intn(100)
 		switch {
 		case r < 8:
